@@ -50,7 +50,7 @@ CLAIMED = {
   text="For every value (symbolic bytes, up to N) of keep-sorted, keep-sorted-format, affects and severity, every key text under numeric sort, a menu of uncompilable regexes for the three regex attributes, and short/overflowing line-count expressions, with the bad block placed before/after healthy blocks: Z3 shows on the validators' MIR that a value outside the attribute's accepted language (written as a formula over the bytes) makes validate return Err, a value inside does not, and through validators::run the Err of one validator among healthy ones is the result of the run.",
   note="Don't-care: values that trim to a valid word but carry surrounding blanks. Regex compilation comes from the reference model, not the regex crate. Outside: Lua/AI malformations (async), the exit code of the process itself."),
  'C17': dict(
-  text="On the MIR of lua_from_env, for BLOCKWATCH_LUA_MODE unset and for every value of up to N bytes: exactly "safe" selects the safe constructor (io, os, package present; no debug, no native loading), exactly "unsafe" the unsafe one, every other string yields an interpreter whose globals contain none of io, os, package, debug, require, dofile, loadfile and which cannot load native modules.",
+  text="On the MIR of lua_from_env, for BLOCKWATCH_LUA_MODE unset and for every value of up to N bytes: exactly `safe` selects the safe constructor (io, os, package present; no debug, no native loading), exactly `unsafe` the unsafe one, every other string yields an interpreter whose globals contain none of io, os, package, debug, require, dofile, loadfile and which cannot load native modules.",
   note="The Lua VM and mlua are a contract stub (library flags as sets, base library per the Lua 5.4 manual, native loading per mlua's constructors); the contract is compared with the real VM through a probe script on sampled modes in every run. What the Lua C library does beyond that is outside."),
 }
 
